@@ -149,6 +149,7 @@ Record borrow_in := mkBorrowIn {
   b_lend_found : bool;              (* GetLend(borrowPos.LendingID) found *)
   b_kill : bool;                    (* kill switch of lendPos.AppID *)
   b_interest_ok : bool;             (* CalculateBorrowInterestForLiquidation / ReBalanceStableRates succeed *)
+  b_interest_panic : bool;          (* ... panic (division by a zero GlobalIndex / ReserveGlobalIndex of the borrow) *)
   b_amt_in : Z; b_amt_out : Z;      (* AmountIn.Amount, AmountOut.Amount *)
   b_interest : Z;                   (* InterestAccumulated (Dec) after the interest update of this visit *)
   b_price_in : option Z; b_dec_in : Z;    (* lendPair.AssetIn: active Twa, Decimals *)
@@ -221,6 +222,7 @@ Definition seize_rule_borrow_of (g : gen) (b : borrow_in) (above_ : outcome bool
   else if b_liquidated b then VKeep
   else if negb (b_lend_found b) then VErr
   else if b_kill b then VErr
+  else if b_interest_panic b then VPanic
   else if negb (b_interest_ok b) then VErr
   else verdict_of_outcome
     (obind above_ (fun above =>
@@ -552,7 +554,7 @@ Definition holds_C09_safe_borrow (seized : list borrow_in) : bool := forallb bor
    the kill switch is off, liquidation is enabled for the app (whitelisting) with an auction type
    activated; active prices are implied by a computable ratio (borrow_unsafe) *)
 Definition live_hyp_borrow (b : borrow_in) : bool :=
-  b_found b && negb (b_liquidated b) && b_lend_found b && negb (b_kill b) && b_interest_ok b &&
+  b_found b && negb (b_liquidated b) && b_lend_found b && negb (b_kill b) &&
   b_white b && (b_dutch b || b_english b).
 
 (* known-finding class C09-F5: every hypothesis of the property holds and the borrow is above its
@@ -562,6 +564,15 @@ Definition live_hyp_borrow (b : borrow_in) : bool :=
    while the pool stays short *)
 Definition kf_C09_5 (b : borrow_in) : bool :=
   live_hyp_borrow b && borrow_unsafe b && negb (borrow_funds_ok b).
+
+(* known-finding class C09-F6: every hypothesis of the property holds and the borrow is above its
+   threshold (at its STORED interest), but the interest update every visit starts with fails: the
+   borrow was opened while lend.GetReserveRate was exactly 0 (e.g. the only earlier borrows of that
+   pool asset are stable borrows of an asset whose stable rate parameters are 0), its
+   ReserveGlobalIndex is 0 and lend.CalculateBorrowInterest divides by it - in every block, and in
+   every liquidate / repay / close message *)
+Definition kf_C09_6 (b : borrow_in) : bool :=
+  live_hyp_borrow b && borrow_unsafe b && (b_interest_panic b || negb (b_interest_ok b)).
 
 (* liveness hypotheses for a vault at one block: controls off, prices active, liquidation and
    its auction type enabled *)
